@@ -245,25 +245,29 @@ def pda_epsilon_closure(P: PDA, R: Iterable[PDAState]) -> Set[PDAState]:
     epsilon = P.epsilon
 
     result: Set[PDAState] = set([r for r in R])
-    todo: Set[PDAState] = set([r for r in R])
+
+    # The states are explored breadth first in a fixed order, such that the result does not depend
+    # on the iteration order of sets (i.e. on the string hash seed) when the iteration limit is hit.
+    todo: List[PDAState] = sorted(result)
+    transitions = sorted(delta.items(), key=lambda item: item[0])
 
     # The loop below may not terminate in case of epsilon cycles. For this
     # reason we limit the number of iterations of the loop.
     max_iterations = GambaTools.pda_epsilon_closure_max_iterations
     iteration = 0
 
-    while len(todo) > 0 and iteration < max_iterations:
+    while iteration < len(todo) and iteration < max_iterations:
+        src = todo[iteration]
         iteration += 1
-        src = todo.pop()
-        for (p, a, u), Q1 in delta.items():
+        for (p, a, u), Q1 in transitions:
             if p != src.q or a != epsilon:
                 continue
-            for (q, v) in Q1:
+            for (q, v) in sorted(Q1):
                 if pda_can_pop_push(P, src.stack, u, v):
                     stack1 = pda_pop_push(P, src.stack, u, v)
                     target = PDAState(q, stack1)
                     if target not in result:
-                        todo.add(target)
+                        todo.append(target)
                         result.add(target)
     return result
 
